@@ -200,7 +200,7 @@ Proof.
   rewrite Hs, Bool.andb_true_r.
   pose proof (pow2_pos c ltac:(lia)) as Hp.
   pose proof (Z.div_mod (5 ^ Z.abs k) (2 ^ c) ltac:(lia)) as Hd.
-  assert (H5 : Z.odd (5 ^ Z.abs k) = true) by (apply Z.odd_pow; [reflexivity | lia] || idtac).
+  assert (H5 : Z.odd (5 ^ Z.abs k) = true) by (rewrite Z.odd_pow by lia; reflexivity).
   replace (2 ^ c) with (2 * 2 ^ (c - 1)) in Hd at 1 by (rewrite <- (pow2_split c); lia).
   rewrite Hd in H5. rewrite <- Z.mul_assoc, Z.add_comm, Z.odd_add_mul_2 in H5. exact H5.
 Qed.
